@@ -1013,6 +1013,73 @@ func init() {
 					return
 				}
 			}
+			if !scanOK && ascii != nil {
+				// the scan may be a library search with the set's test as predicate: strings.IndexFunc(ascii, isForbidden) / ContainsFunc
+				for _, r := range *ascii.Referrers() {
+					call, ok := r.(*ssa.Call)
+					if !ok {
+						continue
+					}
+					g := call.Common().StaticCallee()
+					if g == nil || (g.String() != "strings.IndexFunc" && g.String() != "strings.ContainsFunc") || len(call.Common().Args) != 2 || call.Common().Args[0] != ascii {
+						continue
+					}
+					if !forbiddenPredicate(c, call.Common().Args[1]) {
+						continue
+					}
+					s.OK("hostpipe/scan", c.P.Pos(call.Pos()), "every code point of the ToASCII result is tested against ForbiddenDomainCodePoint by "+g.String()+" with the set's test as predicate")
+					ff := Facts(c, ph)
+					nRet := 0
+					for _, b := range ph.Blocks {
+						rt, ok := b.Instrs[len(b.Instrs)-1].(*ssa.Return)
+						if !ok || !ff.Reachable(b) {
+							continue
+						}
+						ei := errResultIndex(ph)
+						if ei < 0 || ei >= len(rt.Results) {
+							continue
+						}
+						success := isNilConst(rt.Results[ei])
+						if ex, ok := rt.Results[ei].(*ssa.Extract); ok {
+							if c2, ok := ex.Tuple.(*ssa.Call); ok && c2.Common().StaticCallee() != nil && c2.Common().StaticCallee().Name() == "parseIPv4" {
+								success = true
+							}
+						}
+						if !success {
+							continue
+						}
+						lax, clean := false, false
+						beforeDecode := !ff.Dominates(decode.Block(), b)
+						for _, fa := range ff.At(b) {
+							if optLoad(fa.Cond) == "laxHostParsing" && fa.Val {
+								lax = true
+							}
+							if fa.Cond == ssa.Value(call) && !fa.Val {
+								clean = true // ContainsFunc answered false
+							}
+							if bo, ok := fa.Cond.(*ssa.BinOp); ok && bo.X == ssa.Value(call) {
+								if k, ok := constInt(bo.Y); ok {
+									switch {
+									case bo.Op == token.GEQ && k == 0 && !fa.Val, bo.Op == token.LSS && k == 0 && fa.Val,
+										bo.Op == token.EQL && k == -1 && fa.Val, bo.Op == token.NEQ && k == -1 && !fa.Val,
+										bo.Op == token.GTR && k == -1 && !fa.Val, bo.Op == token.LEQ && k == -1 && fa.Val:
+										clean = true
+									}
+								}
+							}
+						}
+						if beforeDecode || lax {
+							continue
+						}
+						nRet++
+						s.Check(clean, fmt.Sprintf("hostpipe/return#%d", nRet), c.P.Pos(rt.Pos()), "reached only when the forbidden-domain scan found nothing", "a domain can be returned without the forbidden-domain scan having found nothing")
+					}
+					if nRet == 0 {
+						s.Unknown("hostpipe/returns", pos, "no non-lax success return of a domain found")
+					}
+					return
+				}
+			}
 			if !scanOK {
 				s.Bad("hostpipe/scan", pos, "no scan of the ToASCII result against ForbiddenDomainCodePoint found")
 				return
@@ -1479,6 +1546,38 @@ func schemeTableLookup(g *ssa.Function) bool {
 // forbiddenScanFn: g ranges over its string parameter, tests every code point against ForbiddenDomainCodePoint, and
 // has a bool result (index returned) that is the constant true exactly on returns under a positive test and the
 // constant false on the others; it writes nothing.
+// forbiddenPredicate: v is a function of one code point that answers exactly ForbiddenDomainCodePoint.Test(uint(r)).
+func forbiddenPredicate(c *Ctx, v ssa.Value) bool {
+	var g *ssa.Function
+	switch x := v.(type) {
+	case *ssa.Function:
+		g = x
+	case *ssa.MakeClosure:
+		if len(x.Bindings) == 0 {
+			g, _ = x.Fn.(*ssa.Function)
+		}
+	}
+	if g == nil || !c.P.InModule(g) || len(g.Blocks) != 1 || len(g.Params) != 1 {
+		return false
+	}
+	ret, ok := g.Blocks[0].Instrs[len(g.Blocks[0].Instrs)-1].(*ssa.Return)
+	if !ok || len(ret.Results) != 1 {
+		return false
+	}
+	call, ok := ret.Results[0].(*ssa.Call)
+	if !ok {
+		return false
+	}
+	cl := call.Common().StaticCallee()
+	if cl == nil || cl.Name() != "Test" || core.PkgPathOf(cl) != core.BitsetPath || len(call.Common().Args) != 2 {
+		return false
+	}
+	if n, ok := bitsetGlobal(call.Common().Args[0]); !ok || n != "ForbiddenDomainCodePoint" {
+		return false
+	}
+	return stripConv(call.Common().Args[1]) == ssa.Value(g.Params[0])
+}
+
 func forbiddenScanFn(c *Ctx, g *ssa.Function) (int, bool) {
 	if g == nil || len(g.Blocks) == 0 || !c.P.InModule(g) {
 		return 0, false
